@@ -16,11 +16,12 @@ def hostile : List LOp :=
    .inc (.pubcomp 1 0), .inc (.pubcomp 65535 0), .inc .subscribe, .inc (.suback 3), .inc .unsubscribe,
    .inc (.unsuback 3), .inc .pingreq, .inc .pingresp, .inc (.disconnect 0), .user (.publish 1 5),
    .inc (.puback 1 0), .inc (.puback 1 0)]
-/-- #21 (v5): PUBLISH with an empty topic and an alias nobody registered -/
+/-- v5: PUBLISH with an empty topic and an alias nobody registered: protocol error, the DISCONNECT
+    that is announced is also returned for the wire (formerly #21) -/
 def runAlias : List LOp := [.inc (.publish ⟨1, 5, 9, true, some 7⟩)]
-/-- #22 (v5): QoS 2 publish id 9, then its release with reason 146 -/
+/-- v5: QoS 2 publish id 9, then its release with reason 146: answered by PUBCOMP (formerly #22) -/
 def runRel : List LOp := [.inc (.publish ⟨2, 9, 1, false, none⟩), .inc (.pubrel 9 146)]
-/-- #13 (v5): A(1), B(2); PUBACK 2; C parks on 1; unsolicited PUBCOMP 1 -/
+/-- v5: A(1), B(2); PUBACK 2; C parks on 1; unsolicited PUBCOMP 1: error, C untouched (formerly #13) -/
 def run13 : List LOp :=
   [.user (.publish 1 1), .user (.publish 1 2), .inc (.puback 2 0), .user (.publish 1 3), .inc (.pubcomp 1 0)]
 
@@ -30,12 +31,19 @@ def run13 : List LOp :=
 theorem never_panics (s : State) (h : SInv s) (p : Incoming) : (handleIncoming s p).2 ≠ .panic :=
   handleIncoming_noPanic h p
 
-/-- … in particular along every run of the loop (both versions; v5 without #17, after which the id
-    counter can run into the u16 overflow) -/
+/-- … in particular along every run of the MQTT 3.1.1 loop (full strength) -/
+theorem never_panics_run_v4 (max : Nat) (m : Bool) (h1 : 1 ≤ max) (h2 : max ≤ u16Max) (ops : List LOp) :
+    Along (fun _ _ o _ _ => C10.noPanic o = true) (LState.new .v4 max m) (Ghost.init .v4 max m) ops := by
+  apply along_of_inv' B1 (fun l op => ¬ unsafeConnack l op) B1.step _ _ _ _ _ (B1.new .v4 max m h1 h2)
+    (avoids_unsafe_v4 _ rfl ops).not_not
+  intro l g op o hi _ ho _
+  exact C10_noPanic_ok hi.inv0 op o ho
+
+/-- … both versions: along runs without #17 -/
 theorem never_panics_run_partial (ver : Version) (max : Nat) (m : Bool) (h1 : 1 ≤ max) (h2 : max ≤ u16Max)
     (ops : List LOp) (hn : Avoids unsafeConnack (LState.new ver max m) ops) :
     Along (fun _ _ o _ _ => C10.noPanic o = true) (LState.new ver max m) (Ghost.init ver max m) ops := by
-  apply along_of_inv' B0 (fun l op => ¬ unsafeConnack l op) B0.step _ _ _ _ _ (B0.new ver max m h1 h2) hn.not_not
+  apply along_of_inv' B1 (fun l op => ¬ unsafeConnack l op) B1.step _ _ _ _ _ (B1.new ver max m h1 h2) hn.not_not
   intro l g op o hi _ ho _
   exact C10_noPanic_ok hi.inv0 op o ho
 
@@ -43,7 +51,9 @@ theorem never_panics_run_partial (ver : Version) (max : Nat) (m : Bool) (h1 : 1 
     the received packet exactly once, first, followed only by `Outgoing` events -/
 theorem event_order (s : State) (p : Incoming) :
     ∃ outs : List Event, (handleIncoming s p).1.events = s.events ++ .incoming p :: outs ∧
-      ∀ e ∈ outs, isIncomingEv e = false := shapeW_handleIncoming s p
+      ∀ e ∈ outs, isIncomingEv e = false := by
+  obtain ⟨outs, h1, h2, _⟩ := shape_handleIncoming s p
+  exact ⟨outs, h1, h2⟩
 
 /-- … and a request appends no `Incoming` event at all -/
 theorem event_order_outgoing (s : State) (r : Request) :
@@ -51,59 +61,83 @@ theorem event_order_outgoing (s : State) (r : Request) :
   (shape_handleOutgoing s r).weak
 
 /-- C10.2–4 ack_generation (full strength, both versions): QoS 0 → nothing; QoS 1 → PUBACK(id);
-    QoS 2 → PUBREC(id); with manual acks neither -/
+    QoS 2 → PUBREC(id); with manual acks neither; MQTT 5 protocol error (empty topic, alias never
+    registered) → DISCONNECT with reason 0x82, returned for the wire -/
 theorem ack_generation (s : State) (q : InPub) :
     (handleIncoming s (.publish q)).2 =
-      if q.qos = 0 then .ok none
+      if publishAlias s q = none then .ok (some (.disconnect 130))
+      else if q.qos = 0 then .ok none
       else if s.manualAcks then .ok none
       else if q.qos = 1 then .ok (some (.puback q.pkid))
-      else .ok (some (.pubrec q.pkid)) :=
-  handlePublish_answer (s.pushEv (.incoming (.publish q))) q
+      else .ok (some (.pubrec q.pkid)) := by
+  have h := handlePublish_answer (s.pushEv (.incoming (.publish q))) q
+  have hiff : publishAlias (s.pushEv (.incoming (.publish q))) q = none ↔ publishAlias s q = none :=
+    (publishAlias_none_iff (s.pushEv (.incoming (.publish q))) q).trans (publishAlias_none_iff s q).symm
+  show (handlePublish (s.pushEv (.incoming (.publish q))) q).2 = _
+  rw [h]
+  by_cases hp : publishAlias s q = none
+  · rw [if_pos hp, if_pos (hiff.mpr hp)]
+  · rw [if_neg hp, if_neg (fun h' => hp (hiff.mp h'))]; rfl
+
+/-- `publishAlias s q = none` spelled out -/
+theorem protocol_error_iff (s : State) (q : InPub) :
+    publishAlias s q = none ↔
+      (s.ver = .v5 ∧ ∃ a, q.alias = some a ∧ q.topicEmpty = true ∧ s.aliases.contains a = false) :=
+  publishAlias_none_iff s q
 
 /-- … the QoS 2 id is remembered whether or not acks are manual -/
-theorem qos2_id_recorded (s : State) (q : InPub) (h0 : q.qos ≠ 0) (h1 : q.qos ≠ 1) :
+theorem qos2_id_recorded (s : State) (q : InPub) (h0 : q.qos ≠ 0) (h1 : q.qos ≠ 1) (hp : publishAlias s q ≠ none) :
     q.pkid ∈ (handleIncoming s (.publish q)).1.incomingPub := by
   have := (handlePublish_incomingPub (s.pushEv (.incoming (.publish q))) q q.pkid)
   have hq : ¬ (q.qos = 0 ∨ q.qos = 1) := by omega
-  rw [if_neg hq] at this
+  have hp' : ¬ publishAlias (s.pushEv (.incoming (.publish q))) q = none :=
+    fun h' => hp (((publishAlias_none_iff (s.pushEv (.incoming (.publish q))) q).trans (publishAlias_none_iff s q).symm).mp h')
+  rw [if_neg hp', if_neg hq] at this
   exact this.mpr (Or.inl rfl)
 
-/-- C10.4 release of a known id: PUBCOMP(id) — v4 always, v5 when the release carries reason Success -/
-theorem release_answered (s : State) (i r : Nat) (hk : s.incomingPub.contains i = true)
-    (hr : s.ver = .v4 ∨ r = 0) : (handleIncoming s (.pubrel i r)).2 = .ok (some (.pubcomp i)) := by
-  have := handlePubrel_answer (s.pushEv (.incoming (.pubrel i r))) i r hk
-  show (handlePubrel (s.pushEv (.incoming (.pubrel i r))) i r).2 = _
-  rw [this, if_neg]
-  rintro ⟨hv, hr0⟩
-  rcases hr with h | h
-  · have : (s.pushEv (.incoming (.pubrel i r))).ver = s.ver := rfl
-    rw [this, h] at hv; cases hv
-  · exact hr0 h
-
-/-- the full clause ("answers a release of a known id with PUBCOMP", MQTT 5: whatever the reason)
-    is false in v5 (#22) -/
-theorem release_answered_fails :
-    ¬ Along (fun _ g o _ _ => C10.relAnswered g o = true) (LState.new .v5 3 false) (Ghost.init .v5 3 false) runRel := by
-  rw [along_iff_alongB (fun g o _ => C10.relAnswered g o)]; decide
+/-- C10.4 (full strength, both versions) release of a known id: PUBCOMP(id), whatever the MQTT 5
+    reason code of the release ([MQTT-4.3.3-11]) -/
+theorem release_answered (s : State) (i r : Nat) (hk : s.incomingPub.contains i = true) :
+    (handleIncoming s (.pubrel i r)).2 = .ok (some (.pubcomp i)) :=
+  handlePubrel_answer (s.pushEv (.incoming (.pubrel i r))) i hk
 
 /-- C10.5b unsolicited_is_error_not_corruption: an acknowledgement the wire never solicited (id not
     outstanding, repeated, 0, above the limit) returns `Unsolicited(id)` and leaves `inflight()`,
-    the collision slot and `clean()`-of-a-clone (as a multiset; v4 may move its rotation point)
-    unchanged — along runs without #17 and #4/#13 (after an unrecorded send the wire view and the
-    tables disagree) -/
+    the collision slot and `clean()`-of-a-clone (as a multiset) unchanged — along runs without #17 -/
 theorem unsolicited_is_error_not_corruption_partial (ver : Version) (max : Nat) (m : Bool) (h1 : 1 ≤ max)
-    (h2 : max ≤ u16Max) (ops : List LOp) (hn : Avoids c02Trigger (LState.new ver max m) ops) :
+    (h2 : max ≤ u16Max) (ops : List LOp) (hn : Avoids unsafeConnack (LState.new ver max m) ops) :
     Along (fun _ g o _ _ => C10.unsolicitedErr g o = true ∧ C10.unsolicitedKeeps g o = true)
       (LState.new ver max m) (Ghost.init ver max m) ops := by
-  apply along_of_inv' B1 (fun l op => ¬ c02Trigger l op) B1.step _ _ _ _ _ (B1.new ver max m h1 h2) hn.not_not
+  apply along_of_inv' B1 (fun l op => ¬ unsafeConnack l op) B1.step _ _ _ _ _ (B1.new ver max m h1 h2) hn.not_not
   intro l g op o hi hok ho _
-  exact C10_unsolicited_ok hi op o ho (fun h => hok (Or.inr h.2))
+  exact C10_unsolicited_ok hi op o ho
 
-/-- the full clause is false in v5 (#13): an unsolicited PUBCOMP on the id of the parked publish
-    returns `Unsolicited` but has emptied the collision slot -/
-theorem unsolicited_is_error_not_corruption_fails :
-    ¬ Along (fun _ g o _ _ => C10.unsolicitedKeeps g o = true) (LState.new .v5 2 false) (Ghost.init .v5 2 false) run13 := by
-  rw [along_iff_alongB (fun g o _ => C10.unsolicitedKeeps g o)]; decide
+/-- … MQTT 3.1.1: full strength -/
+theorem unsolicited_is_error_not_corruption_v4 (max : Nat) (m : Bool) (h1 : 1 ≤ max) (h2 : max ≤ u16Max) (ops : List LOp) :
+    Along (fun _ g o _ _ => C10.unsolicitedErr g o = true ∧ C10.unsolicitedKeeps g o = true)
+      (LState.new .v4 max m) (Ghost.init .v4 max m) ops :=
+  unsolicited_is_error_not_corruption_partial .v4 max m h1 h2 ops (avoids_unsafe_v4 _ rfl ops)
+
+/-- … state form (full strength, every state, both versions): a PUBACK / PUBREC for an id under
+    which nothing is stored, a PUBCOMP for an id whose release is not pending, returns
+    `Unsolicited(id)` and changes nothing but the event queue -/
+theorem unsolicited_state (s : State) (i r : Nat) :
+    ((s.outgoingPub[i]? = none ∨ s.outgoingPub[i]? = some none) →
+      (handleIncoming s (.puback i r)).2 = .err (.unsolicited i) ∧ (handleIncoming s (.puback i r)).1.core = s.core ∧
+      (handleIncoming s (.pubrec i r)).2 = .err (.unsolicited i) ∧ (handleIncoming s (.pubrec i r)).1.core = s.core) ∧
+    (relContains s i = false →
+      (handleIncoming s (.pubcomp i r)).2 = .err (.unsolicited i) ∧ (handleIncoming s (.pubcomp i r)).1.core = s.core) := by
+  constructor
+  · intro h
+    rw [handleIncoming_puback, handleIncoming_pubrec]
+    unfold handlePuback handlePubrec
+    rcases h with h | h <;> simp [h]
+  · intro h
+    have h' : relContains (s.pushEv (.incoming (.pubcomp i r))) i = false := h
+    rw [handleIncoming_pubcomp]
+    unfold handlePubcomp
+    rw [if_neg (by rw [h']; simp)]
+    exact ⟨rfl, rfl⟩
 
 /-- C10.6 outgoing_notification_exact for requests (full strength, both versions): every packet
     returned is announced by exactly one `Outgoing` event of the matching kind and id, nothing
@@ -111,49 +145,31 @@ theorem unsolicited_is_error_not_corruption_fails :
 theorem outgoing_notification_exact_requests (s : State) (r : Request) : Shape s (handleOutgoing s r) :=
   shape_handleOutgoing s r
 
-/-- … for incoming packets: v4 full strength -/
-theorem outgoing_notification_exact_v4 (s : State) (hv : s.ver = .v4) (p : Incoming) :
-    InShape s p (handleIncoming s p) :=
-  shape_handleIncoming s p (fun h => by have := h.1; rw [hv] at this; cases this)
+/-- … for incoming packets (full strength, every state, both versions) -/
+theorem outgoing_notification_exact (s : State) (p : Incoming) : InShape s p (handleIncoming s p) :=
+  shape_handleIncoming s p
 
-/-- … v5: except when a notification is pushed for a packet that is never written (#21 unknown
-    topic alias → `Outgoing::Disconnect`; #13/#16 PUBCOMP that takes the parked publish and then
-    fails) -/
-theorem outgoing_notification_exact_partial (s : State) (p : Incoming) (hn : ¬ announcesUnwritten s p) :
-    InShape s p (handleIncoming s p) := shape_handleIncoming s p hn
-
-/-- the full clause is false in v5 (#21) -/
-theorem outgoing_notification_exact_fails :
-    ¬ Along (fun _ _ o _ _ => C10.notify o = true) (LState.new .v5 3 false) (Ghost.init .v5 3 false) runAlias := by
-  rw [along_iff_alongB (fun _ o _ => C10.notify o)]; decide
-
-/-- the executable monitor `C10.check` accepts every model trace that avoids #17, #4/#13, #21, #22 -/
+/-- the executable monitor `C10.check` accepts every model trace that avoids #17 -/
 theorem monitor_passes_partial (ver : Version) (max : Nat) (m : Bool) (h1 : 1 ≤ max) (h2 : max ≤ u16Max) (ops : List LOp)
-    (hn : Avoids c10Trigger (LState.new ver max m) ops) :
+    (hn : Avoids unsafeConnack (LState.new ver max m) ops) :
     C10.check (Ghost.init ver max m) (ltrace (LState.new ver max m) ops) = .ok :=
   runChecks_ok _ _ _ _ _ _ (c10_checks_along ver max m h1 h2 ops hn)
 
-/-- v4: the only trigger left is #4 -/
-theorem monitor_passes_v4_partial (max : Nat) (m : Bool) (h1 : 1 ≤ max) (h2 : max ≤ u16Max) (ops : List LOp)
-    (hn : Avoids pubcompOnCollision (LState.new .v4 max m) ops) :
-    C10.check (Ghost.init .v4 max m) (ltrace (LState.new .v4 max m) ops) = .ok := by
-  apply monitor_passes_partial .v4 max m h1 h2 ops
-  refine Spec.Avoids.mk_or (avoids_unsafe_v4 _ rfl ops) (Spec.Avoids.mk_or hn (Spec.Avoids.mk_or ?_ ?_))
-  · apply avoids_v5only_v4 _ _ _ rfl
-    intro l op h
-    cases op <;> simp [unwrittenAnnouncement] at h
-    exact h.1
-  · apply avoids_v5only_v4 _ _ _ rfl
-    intro l op h
-    cases op with
-    | inc p => cases p <;> simp [releaseWithFailureReason] at h <;> exact h.1
-    | _ => simp [releaseWithFailureReason] at h
+/-- MQTT 3.1.1: every trace (full strength) -/
+theorem monitor_passes_v4 (max : Nat) (m : Bool) (h1 : 1 ≤ max) (h2 : max ≤ u16Max) (ops : List LOp) :
+    C10.check (Ghost.init .v4 max m) (ltrace (LState.new .v4 max m) ops) = .ok :=
+  monitor_passes_partial .v4 max m h1 h2 ops (avoids_unsafe_v4 _ rfl ops)
+
+/-! regression examples: the runs on which a clause used to fail -/
+example : C10.check (Ghost.init .v5 3 false) (ltrace (LState.new .v5 3 false) runAlias) = .ok := by decide
+example : C10.check (Ghost.init .v5 3 false) (ltrace (LState.new .v5 3 false) runRel) = .ok := by decide
+example : C10.check (Ghost.init .v5 2 false) (ltrace (LState.new .v5 2 false) run13) = .ok := by decide
+example : (ltrace (LState.new .v5 3 false) runAlias).map (·.outcome) = [.ok (some (.disconnect 130))] := by decide
+example : (ltrace (LState.new .v5 3 false) runRel).map (·.outcome) = [.ok (some (.pubrec 9)), .ok (some (.pubcomp 9))] := by
+  decide
 
 /-! non-vacuity -/
-example : Avoids c10Trigger (LState.new .v4 3 false) hostile := by decide
-example : Avoids c10Trigger (LState.new .v5 3 true) hostile := by decide
-example : ¬ Avoids unwrittenAnnouncement (LState.new .v5 3 false) runAlias := by decide
-example : ¬ Avoids releaseWithFailureReason (LState.new .v5 3 false) runRel := by decide
+example : Avoids unsafeConnack (LState.new .v5 3 true) hostile := by decide
 example : (ltrace (LState.new .v4 3 false) hostile).length = 24 := by decide
 
 end C10
